@@ -105,6 +105,25 @@ class LinearAbstraction:
         return t.decl()(*new)
 
 
+def _cvc5_check(text, tlimit_ms):
+    import cvc5
+
+    sl = cvc5.Solver()
+    sl.setOption("tlimit-per", str(int(tlimit_ms)))
+    ip = cvc5.InputParser(sl)
+    ip.setStringInput(cvc5.InputLanguage.SMT_LIB_2_6, text, "q")
+    sm = ip.getSymbolManager()
+    res = "unknown"
+    while True:
+        c = ip.nextCommand()
+        if c.isNull():
+            break
+        out = str(c.invoke(sl, sm)).strip()
+        if out in ("sat", "unsat", "unknown"):
+            res = out
+    return res
+
+
 class QueryResult:
     def __init__(self, name, verdict, model, secs, tags=None, detail=None):
         self.name, self.verdict, self.model, self.secs = name, verdict, model, secs
@@ -126,8 +145,9 @@ class Session:
         self.results = []
         self.t0 = time.time()
         self.solver_time = 0.0
-        self.cross = {"run": 0, "agree": 0, "disagree": 0, "cvc5_unknown": 0}
-        self.cross_fraction = cross_fraction
+        self.cross = {"run": 0, "agree": 0, "disagree": 0, "cvc5_unknown": 0, "cvc5_error": 0, "secs": 0.0, "disagreements": []}
+        self.cross_fraction = cross_fraction  # None/0.0 -> chosen by tier (see _cross_check)
+        self._qn = 0
         self.functions = {}
         self.assumptions = []
         self.outside = []
@@ -176,7 +196,45 @@ class Session:
         model = None
         if r == z3.sat:
             model = s.model()
+        if r != z3.unknown:
+            self._cross_check(s, str(r))
         return str(r), model, dt
+
+    # ---- second solver: a sample of the decided queries is re-asked of cvc5 (SMT-LIB text of the very same
+    # assertions). Agreement / cvc5-unknown / parse trouble are counted; a definite disagreement makes the
+    # check inconclusive (never success, never an alarm).
+    def _cross_check(self, solver, verdict):
+        import zlib
+
+        self._qn += 1
+        tier = getattr(self, "tier", "quick")
+        env = os.environ.get("VERIF_CROSS")
+        frac = float(env) if env else (self.cross_fraction or (0.5 if tier == "thorough" else 0.15))
+        budget = float(os.environ.get("VERIF_CROSS_BUDGET", "0") or 0) or (90.0 if tier == "thorough" else 15.0)
+        if frac <= 0 or self.cross["secs"] > budget:
+            return
+        if zlib.crc32(f"{SEED}:{self.prop}:{self._qn}".encode()) / 2**32 >= frac:
+            return
+        t = time.time()
+        try:
+            text = "(set-logic ALL)\n" + solver.to_smt2()
+            if len(text) > 400000:
+                return
+            got = _cvc5_check(text, 2000)
+        except Exception as e:  # noqa: BLE001 - the cross-check must never decide anything by failing
+            got = "error:" + type(e).__name__
+        self.cross["secs"] += time.time() - t
+        self.cross["run"] += 1
+        if got == verdict:
+            self.cross["agree"] += 1
+        elif got in ("sat", "unsat"):
+            self.cross["disagree"] += 1
+            self.cross["disagreements"].append({"query": self._qn, "z3": verdict, "cvc5": got})
+            self.results.append(QueryResult(f"cvc5 cross-check disagrees with z3 on query #{self._qn} (z3 {verdict}, cvc5 {got})", "unknown", None, 0.0, {"cross_check": True}))
+        elif got.startswith("error"):
+            self.cross["cvc5_error"] += 1
+        else:
+            self.cross["cvc5_unknown"] += 1
 
     def prove(self, name, assumptions, claim, timeout_ms=None, tags=None, expect=None):
         """Query assumptions /\\ not claim. Returns QueryResult (holds iff unsat)."""
